@@ -64,6 +64,9 @@ def gen_case(rnd, prop, tier):
         n = rnd.choice([1, 2, 3, 3, 4, 4, 5, 5, 6, 6, 7, 8, 9])
         attrs = gen.gen_names(rnd, n)
         sizes = gen.gen_sizes(rnd, n, max_size=5, max_joint=10 ** 9)
+        if rnd.random() < 0.3:
+            # no tables are built for C12, so attribute sizes may be huge (cost-based choices must not change validity)
+            sizes = [rnd.choice([1, 2, 3, 7, 50, 400, 1500, 1200, 10000]) for _ in range(n)]
         cliques, kind = gen.gen_cliques(rnd, attrs, max_width=4)
         return dict(engine='A', attrs=attrs, sizes=sizes, cliques=cliques, kind=kind, elims=[gen_elim(rnd, attrs)])
     n = rnd.choice([1, 2, 3, 3, 4, 4, 4, 5, 5, 6])
@@ -229,7 +232,11 @@ def run_c12(mbi, case):
                 probes['int-mode-non-greedy-order'] = 1
         if 1 in case['sizes']:
             probes['size-1-attr'] = 1
-        measure = [hypergraph(case), mode, eo, sorted(sorted(ix[a] for a in n) for n in nodes)]
+        if max(case['sizes']) >= 400:
+            probes['huge-attribute-sizes'] = 1
+            if any(float(np.prod([case['sizes'][ix[x]] for x in set(a) & set(b)])) > 1e6 for a, b in edges if len(set(a) & set(b)) >= 2):
+                probes['separator-table>1e6-cells'] = 1
+        measure = [hypergraph(case), mode, eo, sorted(sorted(ix[a] for a in n) for n in nodes), 'huge' if max(case['sizes']) >= 400 else 'small']
         nontrivial = len(nodes) >= 2 and (fill or elim is not None)
         # the GraphicalModel wrapper must expose the same tree
         if len(case['attrs']) <= 7 and isinstance(elim, (list, type(None))):
